@@ -110,6 +110,16 @@ class Interp5(Interp4):
             return SBuiltin("__new__", bound=obj)
         return super().get_attr(obj, attr, node)
 
+    def identical(self, a, b):
+        from .symexec import SEllipsis
+        if isinstance(b, SEllipsis):
+            if isinstance(a, SEllipsis):
+                return z3.BoolVal(True)
+            if isinstance(a, SAdt) and a.sort == "DVal":
+                return self.is_c("DEllipsis", a.t)
+            return z3.BoolVal(False)
+        return super().identical(a, b)
+
     def is_none_hook4(self, a):
         if isinstance(a, SAdt) and a.sort == "OptHook":
             return self.is_c("NoHook", a.t)
